@@ -141,7 +141,7 @@ func C05forms(p *load.Program, run *report.Run) {
 						}
 					}
 					stream := fpai.ZeroVal(streamT).(fpai.StructV)
-					tmp := &fpai.SymSlice{Name: "tmp", M: map[string]*fpai.Obj{"in0": aw, "in1": bw, "out": {V: fpai.StructV{F: []fpai.Val{fpai.LabelV{}, fpai.LabelV{}}}}}}
+					tmp := &fpai.SymSlice{Name: "tmp", M: map[string]*fpai.Obj{"in0": aw, "in1": bw, "out": {V: fpai.StructV{F: []fpai.Val{fpai.Lab("stale:wire.L0"), fpai.Lab("stale:wire.L1")}}}}}
 					idxSlice := func(name string) *fpai.SymSlice {
 						return &fpai.SymSlice{Name: name, M: map[string]*fpai.Obj{}, Default: func(key string) *fpai.Obj {
 							return &fpai.Obj{V: fpai.IntV{Sym: name + "[" + key + "]"}}
@@ -163,10 +163,21 @@ func C05forms(p *load.Program, run *report.Run) {
 							stream.F[i] = fpai.IntV{Sym: "firstTmp"}
 						case "firstOut":
 							stream.F[i] = fpai.IntV{Sym: "firstOut"}
+						default:
+							// any other scalar state of the session object is unknown at an arbitrary gate:
+							// a flag is an open condition (both values are explored), a number a symbol
+							if bt, ok := ss.Field(i).Type().Underlying().(*types.Basic); ok {
+								switch {
+								case bt.Info()&types.IsBoolean != 0:
+									stream.F[i] = fpai.BoolV{Sym: "Streaming." + ss.Field(i).Name()}
+								case bt.Info()&types.IsInteger != 0:
+									stream.F[i] = fpai.IntV{Sym: "Streaming." + ss.Field(i).Name()}
+								}
+							}
 						}
 					}
 					idp := &fpai.Obj{V: fpai.IntV{Sym: "id0"}}
-					table := &fpai.Obj{V: fpai.ArrV{E: []fpai.Val{fpai.LabelV{}, fpai.LabelV{}, fpai.LabelV{}, fpai.LabelV{}}}}
+					table := &fpai.Obj{V: fpai.ArrV{E: []fpai.Val{fpai.Lab("stale:row0"), fpai.Lab("stale:row1"), fpai.Lab("stale:row2"), fpai.Lab("stale:row3")}}}
 					sink := &fpai.Sink{Name: "buf"}
 					bufpos := &fpai.Obj{V: fpai.IntV{Sym: "bp"}}
 					res, err := in.Call(garbleGate, []fpai.Val{fpai.PtrV{O: &fpai.Obj{V: stream}}, fpai.PtrV{O: newGate(op)}, fpai.PtrV{O: idp},
